@@ -94,6 +94,10 @@ func (l *lab) firstEvent(s *scen, it childItem) {
 		var sc rpcScenario
 		json.Unmarshal(it.Sc, &sc)
 		s.Add("Start", "cn", sc.Cn, "sig", "start")
+	case "inbound":
+		var sc inScenario
+		json.Unmarshal(it.Sc, &sc)
+		s.Add("Start", "cn", len(sc.Reqs), "sig", "start")
 	case "reconnect":
 		s.Add("Init", "part", "rc", "resources", []string{"at", "tcc"}, "by", false, "tm0", false, "rm0", []string{},
 			"tmb", false, "rmb", []string{}, "sig", "init")
@@ -136,7 +140,7 @@ func newLab(em *emitter, o *common.Opts, its []childItem) *lab {
 	})
 	cfg := tctcp.DefaultClientConfig(srv.Addr)
 	switch o.Mode {
-	case "frame", "wire", "rpc":
+	case "frame", "wire", "rpc", "inbound":
 		// heartbeats are produced by the real OnCron, but when the scenario says so, not by the timer
 		cfg.CronPeriod = "3600s"
 	case "reconnect":
